@@ -9,6 +9,7 @@ import (
 // SortedKeys returns the keys of m in a deterministic order (replaces Go's randomised
 // map iteration in instrumented code). Pointer-like keys are ordered by first-seen id.
 func SortedKeys[M ~map[K]V, K comparable, V any](m M, site string) []K {
+	MR(m, site) // iterating a map reads it (race detection)
 	keys := make([]K, 0, len(m))
 	for k := range m {
 		keys = append(keys, k)
